@@ -515,7 +515,7 @@ func main() {
 			die2("in-process CLI and real binary disagree (instrumentation problem, not a violation): %s", msg)
 		}
 		xchecked = n
-		fmt.Printf("real-binary cross-check: %d worlds, stdout and exit status identical\n", n)
+		fmt.Printf("real-binary cross-check: %d worlds, stdout (comment lines aside) and exit status identical\n", n)
 	}
 
 	// 4. violations: group by signature, lowest index first
@@ -739,7 +739,8 @@ func (b *build) crossCheckCLI(seed int64, tier, outDir string) (int, string) {
 			return n, err.Error()
 		}
 		os.Remove(filepath.Join(dir, r.Path))
-		if code != r.Exit || so.String() != r.Stdout {
+		// comment lines may legitimately carry timings or other run-dependent text: compare the rest
+		if code != r.Exit || stripComments(so.String()) != stripComments(r.Stdout) {
 			return n, fmt.Sprintf("world %d argv=%v: real exit=%d stdout=%q; in-process exit=%d stdout=%q", r.Index, r.Argv, code, so.String(), r.Exit, r.Stdout)
 		}
 		n++
@@ -961,4 +962,15 @@ func clipS(s string, n int) string {
 		return s[:n] + "..."
 	}
 	return s
+}
+
+func stripComments(out string) string {
+	var keep []string
+	for _, ln := range strings.Split(out, "\n") {
+		if ln == "c" || strings.HasPrefix(ln, "c ") {
+			continue
+		}
+		keep = append(keep, ln)
+	}
+	return strings.Join(keep, "\n")
 }
